@@ -31,6 +31,9 @@ fn shrink(t: &[String]) -> Vec<Vec<String>> {
 fn gen(rng: &mut Rng, tier: Tier) -> Vec<Case> {
     let mut out = vec![];
     let (nb, nr) = match tier { Tier::Quick => (700, 120), Tier::Thorough => (12000, 2000) };
+    if tier == Tier::Thorough {
+        for h in exhaustive_hists(3, 5, false, true) { out.push(Case::new("exhaustive", enc(&h))); }
+    }
     for i in 0..(nb + nr) {
         let small = i < nb;
         let n = if small { match i % 20 { 0 => 0, 1 => 1, _ => rng.range(2, 7) as usize } } else { rng.range(5, 40) as usize };
@@ -47,7 +50,7 @@ fn gen(rng: &mut Rng, tier: Tier) -> Vec<Case> {
 pub fn prop() -> PropDef {
     PropDef {
         id: "C20",
-        rule: "corpus, then histories over non-empty intervals: small (0-7 intervals, coordinates 0..20, intervals starting at 0, duplicates, nested stacks, book-ended chains) and large (5-40 intervals of length <= 1200 in separated clusters at offsets 0, < 2^45 and 2^63; optional merge in the history). Non-trivial: two stored intervals touch, overlap or nest. Distinct = distinct input token sequence.",
+        rule: "corpus, then histories over non-empty intervals: small (0-7 intervals, coordinates 0..20, intervals starting at 0, duplicates, nested stacks, book-ended chains) and large (5-40 intervals of length <= 1200 in separated clusters at offsets 0, < 2^45 and 2^63; optional merge in the history). Non-trivial: two stored intervals touch, overlap or nest. Thorough adds the exhaustive small scope: every sequence of <= 3 non-empty intervals over 0..=5 in several histories. Distinct = distinct input token sequence.",
         observable: "Lapper::depth() collected: (start, stop, depth) runs, or panic",
         gen, exec, shrink, child: None,
     }
